@@ -1,5 +1,5 @@
 \* simulation: random operation sequences of length 12, larger requests, writes through slices
-SPECIFICATION Spec
+SPECIFICATION SimSpec
 CONSTANTS
   Align0 = 4
   Aligns = {2, 3, 4, 8}
@@ -7,5 +7,4 @@ CONSTANTS
   MaxLive = 6
   MaxOps = 12
   WithWrites = TRUE
-CONSTRAINT Emit
 CHECK_DEADLOCK FALSE
